@@ -66,7 +66,9 @@ class StreamingDetector(ABC):
                     raise ValueError(
                         "Columns of new data must match with columns of prior data."
                     )
-            ary = X.values
+            # a private copy: under copy-on-write .values is a live view of the
+            # caller's frame
+            ary = np.array(X.values)
         else:
             ary = copy.copy(X)
             ary = np.array(ary)
@@ -247,7 +249,9 @@ class BatchDetector(ABC):
                     raise ValueError(
                         "Columns of new data must match with columns of prior data."
                     )
-            ary = X.values
+            # a private copy: under copy-on-write .values is a live view of the
+            # caller's frame
+            ary = np.array(X.values)
         else:
             ary = copy.copy(X)
             ary = np.array(ary)
